@@ -22,6 +22,7 @@ const (
 	fRawTab   = "C15-raw-tab-in-string-literal-invalid-json"
 	fBlockQ   = "C15-block-string-edge-quote-lost"
 	fBlockBs  = "C15-block-string-backslash-before-escaped-triple-quote-rejected"
+	fNoVarsNl = "C15-omitted-variable-in-object-literal-becomes-null-without-variables-object"
 )
 
 var reEdgeQuote = regexp.MustCompile(`^[ \t\r\n\\]*"|"[ \t\r\n\\]*$`)
@@ -69,17 +70,23 @@ func substitute(c *Case, lit *ir.Value, vars *ir.Value) *ir.Value {
 				}
 			}
 		}
-		return ir.Null()
+		return nil // no runtime value: dropped from objects, null in lists
 	case ir.VList:
 		out := &ir.Value{K: ir.VList}
 		for _, x := range lit.L {
-			out.L = append(out.L, substitute(c, x, vars))
+			y := substitute(c, x, vars)
+			if y == nil {
+				y = ir.Null()
+			}
+			out.L = append(out.L, y)
 		}
 		return out
 	case ir.VObj:
 		out := &ir.Value{K: ir.VObj}
 		for _, m := range lit.O {
-			out.O = append(out.O, ir.Member{Key: m.Key, V: substitute(c, m.V, vars)})
+			if y := substitute(c, m.V, vars); y != nil {
+				out.O = append(out.O, ir.Member{Key: m.Key, V: y})
+			}
 		}
 		return out
 	}
@@ -99,6 +106,27 @@ func eachArgument(c *Case, vars *ir.Value, f func(t *ir.Type, v *ir.Value) bool)
 		}
 		if f(c.Schema.Echo(fu.Echo).Arg.T(), substitute(c, lit, vars)) {
 			return true
+		}
+	}
+	return false
+}
+
+// valuelessVarInsideLiteralWithoutVariablesObject: the request carries no variables object and
+// a variable without a runtime value is used inside (not as the whole of) an argument literal.
+func valuelessVarInsideLiteralWithoutVariablesObject(c *Case) bool {
+	if c.VarsForm == "object" {
+		return false
+	}
+	for _, d := range c.Decls {
+		for _, fu := range c.Fields {
+			if fu.Arg == "$"+d.Name {
+				continue
+			}
+			for _, t := range tokens(fu.Arg) {
+				if t.Kind == ir.TName && t.Text == d.Name {
+					return true
+				}
+			}
 		}
 	}
 	return false
@@ -192,6 +220,9 @@ var recognisers = []recogniser{
 	}},
 	{fBlockEsc, valueSites, func(c *Case, _ *ir.Value, msg string) bool {
 		return anyToken(c, func(t ir.Token) bool { return t.Kind == ir.TBlockString && strings.Contains(t.Text, `\"""`) })
+	}},
+	{fNoVarsNl, anySite, func(c *Case, vars *ir.Value, msg string) bool {
+		return valuelessVarInsideLiteralWithoutVariablesObject(c)
 	}},
 	{fNullDflt, anySite, func(c *Case, vars *ir.Value, msg string) bool { return omittedListVarWithNullDefault(c, vars) }},
 	{fVarDflt, anySite, func(c *Case, vars *ir.Value, msg string) bool { return omittedDefaultedVarInsideLiteral(c, vars) }},
